@@ -409,7 +409,24 @@ def boundary_fact(conds, x, BYTES, L):
     if table.le(L, x) in cs or table.eq(L, x) in cs or table.eq(x, L) in cs or table.lt(L, x) in cs:
         return True
     want = ("holds", bclass(x, BYTES))
-    return want in cs
+    if want in cs:
+        return True
+    # the byte tests of the path on bytes[x], taken together, leave only non-continuation bytes (any spelling of the test: two
+    # comparisons on separate branches, a nibble table, ...): byte classes are computed exactly over all 256 values
+    hole = want[1][1]
+    allowed = set()
+    for lo, hi in want[1][2]:
+        allowed |= set(range(lo, hi + 1))
+    left = None
+    for a in cs:
+        if a[0] in ("holds", "nholds") and a[1][0] == "byteclass" and a[1][1] == hole:
+            s_ = set()
+            for lo, hi in (a[1][2] if a[0] == "holds" else byteset.complement(a[1][2])):
+                s_ |= set(range(lo, hi + 1))
+            left = s_ if left is None else (left & s_)
+    if left is not None and not left:
+        return True                   # the byte tests of this path contradict each other: it cannot be taken
+    return left is not None and left <= allowed
 
 
 # ------------------------------------------------------------------------------
